@@ -191,6 +191,11 @@ type Task struct {
 	parkedOp      string
 	cancel        context.CancelFunc
 	Cancelled     bool // the client went away (request context cancelled) while the request was in flight
+	Dep0          string // World.depStamp when the request was sent
+	// the entity registered for the application of the stored request this callback read, when no storage mutation happened
+	// during the whole life of the request (what the Audience must be even if the library answered from a cache of its own)
+	StableAudience    string
+	HasStableAudience bool
 	resume        chan resumeCmd
 	done          chan struct{}
 
@@ -428,19 +433,28 @@ type World struct {
 	ConstructErr string
 	IDPModel     *IDPModel
 
+	regSeq        int  // bumped whenever the service-provider registry or the application → entity map changes
+	shadowRunning int  // shadow executions (shadow.go) that have not returned yet
+	inShadow      bool // fault / probe counters are not touched by a shadow execution
+	shadowUUID    *uuidReader
+
 	sharedBase    string // structural hash of the replicas' providers right after construction / restart
 	SharedChanged string // first step after which the hash differed
 }
 
 func (w *World) fire(kind string) {
 	w.mu.Lock()
-	w.Fired[kind]++
+	if !w.inShadow {
+		w.Fired[kind]++
+	}
 	w.mu.Unlock()
 }
 
 func (w *World) probe(name string) {
 	w.mu.Lock()
-	w.Probes[name]++
+	if !w.inShadow {
+		w.Probes[name]++
+	}
 	w.mu.Unlock()
 }
 
@@ -528,6 +542,8 @@ func newWorld(t *testing.T, plan *Plan) *World {
 		seed[i] = byte(w.cfg.UUIDKey >> (8 * i))
 	}
 	w.uuidSrc = &uuidReader{rng: rand.NewChaCha8(seed)}
+	seed[31] ^= 0x5a
+	w.shadowUUID = &uuidReader{rng: rand.NewChaCha8(seed)}
 	if w.cfg.RealUUID {
 		uuid.SetRand(nil)
 	} else {
@@ -537,6 +553,33 @@ func newWorld(t *testing.T, plan *Plan) *World {
 }
 
 func (w *World) now() time.Time { return time.Now() }
+
+// depStamp summarises every piece of storage state the reply to t's request can depend on: the registry, the key versions,
+// health, and the stored requests the request names. A request whose stamp is the same when it is sent and when it has been
+// answered saw one storage state for its whole life — whichever calls it made, or did not make because the library
+// answered from a memory of its own.
+func (w *World) depStamp(t *Task) string {
+	w.mu.Lock()
+	defer w.mu.Unlock()
+	var sb strings.Builder
+	fmt.Fprintf(&sb, "reg%d resp%d meta%d healthy=%v healed=%v", w.regSeq, w.respKeyVer, w.metaKeyVer, w.healthy, w.healed)
+	if t.Sent != nil {
+		ids := append([]string{t.Sent.CallbackID}, t.Sent.CallbackIDs...)
+		for _, id := range ids {
+			if id == "" {
+				continue
+			}
+			found := "absent"
+			for _, se := range w.sessions {
+				if se.ID == id && !se.Deleted {
+					found = fmt.Sprintf("s%d.v%d.done=%v.user=%s", se.Idx, se.Version, se.DoneFlag, se.UserID)
+				}
+			}
+			sb.WriteString(" " + found)
+		}
+	}
+	return sb.String()
+}
 
 func loginURLFor(spIdx int) func(string) string {
 	return func(id string) string {
@@ -887,6 +930,14 @@ func (w *World) step(s *Step) {
 			w.noop("advance: beyond the validity of the fixture certificates")
 			return
 		}
+		if w.runningTasks() > 0 {
+			// a request is blocked on a sync lock that another, parked request holds inside the library. A lock wait is not a
+			// durable block, so the bubble is never idle and its clock cannot move: sleeping here would hang for ever. The step
+			// is skipped (deterministically: the state it depends on is a function of the plan prefix).
+			w.probe("clock_move_skipped_task_blocked_on_library_lock")
+			w.noop("advance: a request is blocked on a library lock")
+			return
+		}
 		infl := w.inflight()
 		for _, t := range infl {
 			t.AdvDuring = true
@@ -949,7 +1000,7 @@ func startRealTick() {
 func (w *World) runningTasks() int {
 	w.mu.Lock()
 	defer w.mu.Unlock()
-	n := 0
+	n := w.shadowRunning
 	for _, t := range w.tasks {
 		if t.st() == tsRunning {
 			n++
@@ -1058,6 +1109,12 @@ func (w *World) drain() {
 }
 
 func (w *World) mutate(s *Step) {
+	switch s.Mut {
+	case "reregister", "deleteSP", "moveApp":
+		w.mu.Lock()
+		w.regSeq++
+		w.mu.Unlock()
+	}
 	// reach probe: the environment changes while a request sits between two of its storage calls
 	for _, t := range w.inflight() {
 		w.mu.Lock()
@@ -1180,6 +1237,18 @@ func (w *World) mutate(s *Step) {
 		w.mu.Unlock()
 		w.fire("sp_deleted")
 		w.hist.add("mutate", -1, fmt.Sprintf("deleteSP %d", n.Idx))
+	case "moveApp":
+		// the application of SP A is registered again under the entityID of SP B (what GetEntityIDByAppID answers changes)
+		if len(w.sps) < 2 {
+			w.noop("moveApp: fewer than two service providers")
+			return
+		}
+		a, b := w.sps[mod(s.A, len(w.sps))], w.sps[mod(s.B, len(w.sps))]
+		w.mu.Lock()
+		w.appToEnt[a.Cfg.AppID] = b.Cfg.Entity
+		w.mu.Unlock()
+		w.fire("app_moved_to_other_entity")
+		w.hist.add("mutate", -1, fmt.Sprintf("moveApp %d -> entity of %d", a.Idx, b.Idx))
 	case "unhealthy":
 		w.healthy = false
 	default:
@@ -1246,6 +1315,7 @@ func (w *World) send(m *MsgSpec) *Task {
 	ctx, t.cancel = context.WithCancel(ctx)
 	req = req.WithContext(ctx)
 	t.TInvoke = time.Now()
+	t.Dep0 = w.depStamp(t)
 	for _, n := range w.sps {
 		t.SPVers0 = append(t.SPVers0, n.Version)
 	}
@@ -1288,6 +1358,14 @@ func (w *World) finalizeTask(t *Task) {
 	}
 	t.Reply = DecodeReply(status, hdr, wr.body.Bytes())
 	w.hist.add("reply", t.ID, replySummary(t))
+	if t.Msg.Kind == "callback" && t.Dep0 == w.depStamp(t) {
+		if c := firstCall(t, "AuthRequestByID"); c != nil && c.Snap != nil {
+			w.mu.Lock()
+			t.StableAudience, t.HasStableAudience = w.appToEnt[c.Snap.AppID]
+			w.mu.Unlock()
+		}
+	}
+	w.runShadow(t)
 }
 
 func replySummary(t *Task) string {
@@ -1590,6 +1668,15 @@ func (s *simStorage) CreateAuthRequest(ctx context.Context, req *samlp.AuthnRequ
 	if isErrFault(fault) {
 		rec.Err = injectedErr(fault).Error()
 		return nil, injectedErr(fault)
+	}
+	if sc := shadowFrom(ctx); sc != nil {
+		// a shadow execution writes nowhere: it gets a record with the id the original request's persist returned
+		sc.calls = append(sc.calls, "CreateAuthRequest("+strings.Join(rec.Args, ",")+")")
+		id2 := sc.persistID
+		if id2 == "" {
+			id2 = "shadow-only"
+		}
+		return &AuthReqSnap{s: Session{ID: id2, AuthRequestID: id, RelayState: relayState, ACS: acsURL, Binding: binding, AppID: appID, Issuer: issuer, Destination: dest, SP: -2}}, nil
 	}
 	s.w.mu.Lock()
 	se := &Session{Idx: len(s.w.sessions), AuthRequestID: id, RelayState: relayState, ACS: acsURL, Binding: binding,
